@@ -1,7 +1,753 @@
-//! C15 — not implemented yet.
+//! C15 — every accepted document can be committed.
+//! Engine: inputmc docs — per schema, every base document of a small alphabet and every result of
+//! one or two schema-agnostic mutation operators; each mutant is queued on a fresh in-memory index
+//! and committed. Oracle: (a) add_document Ok => commit Ok, and after a failed commit a fresh
+//! writer handle can still commit a valid document; (b) an independent schema-validity predicate
+//! says invalid => add_document Err; (c) a rejected document leaves the writer usable and never
+//! shows up in the committed contents.
+
+use std::collections::{BTreeMap, BTreeSet, HashSet};
+use std::sync::atomic::{AtomicBool, AtomicU64, Ordering};
+
+use parking_lot::Mutex;
+use rayon::prelude::*;
+use serde_json::{json, Map, Value};
+
+use vcore::ev::Reporter;
+use vcore::world::*;
+
 use crate::Ctx;
 
-pub fn run(_ctx: &Ctx) -> i32 {
-  eprintln!("C15: check not implemented");
-  2
+// ---------------------------------------------------------------------------------------------
+// Schemas and base documents
+
+fn schema_flat() -> Value {
+  json!({"doc_id_field": "_id",
+    "text_fields": [{"name": "body", "analyzer": "default", "stored": true, "indexed": true}],
+    "keyword_fields": [{"name": "kw", "stored": true, "indexed": true, "fast": true},
+                       {"name": "nk", "stored": true, "indexed": true, "fast": true, "nullable": true}],
+    "numeric_fields": [{"name": "n", "i64": true, "fast": true, "stored": true},
+                       {"name": "f", "i64": false, "fast": true, "stored": true}]})
+}
+
+fn schema_nested() -> Value {
+  json!({"doc_id_field": "_id",
+    "text_fields": [{"name": "body", "analyzer": "default", "stored": true, "indexed": true}],
+    "keyword_fields": [], "numeric_fields": [],
+    "nested_fields": [
+      {"name": "c", "nullable": false, "fields": [
+        {"type": "keyword", "name": "a", "stored": true, "indexed": true, "fast": true},
+        {"type": "numeric", "name": "v", "i64": true, "fast": true, "stored": true, "nullable": true},
+        {"type": "text", "name": "x", "analyzer": "default", "stored": true, "indexed": true, "nullable": true},
+        {"type": "object", "name": "r", "nullable": true, "fields": [
+          {"type": "keyword", "name": "t", "stored": true, "indexed": true, "fast": true},
+          {"type": "numeric", "name": "s", "i64": false, "fast": true, "stored": true, "nullable": true}]}]},
+      {"name": "m", "nullable": true, "fields": [
+        {"type": "keyword", "name": "k", "stored": true, "indexed": true, "fast": true}]}]})
+}
+
+/// (schema name, schema, base documents simplest first). Every base document is plainly valid per
+/// README "Schema and documents" and must be accepted.
+fn universes() -> Vec<(&'static str, Value, Vec<Value>)> {
+  vec![
+    (
+      "flat(text,kw,nullable kw,i64,f64)",
+      schema_flat(),
+      vec![
+        json!({"_id": "A"}),
+        json!({"_id": "A", "body": "a b", "kw": "x", "n": 1, "f": 0.5}),
+        json!({"_id": "A", "body": ["a", "b"], "kw": ["x", "y"], "n": [1, 2], "f": [0.5, 2.5], "nk": null}),
+      ],
+    ),
+    (
+      "nested(c{a,v?,x?,r?{t,s?}},m?{k})",
+      schema_nested(),
+      vec![
+        json!({"_id": "A", "c": {"a": "p"}}),
+        json!({"_id": "A", "body": "a", "c": [{"a": "p", "v": null, "r": null}], "m": null}),
+        json!({"_id": "A", "c": [{"a": "p", "v": 1, "x": "hello", "r": [{"t": "u", "s": 0.5}]}, {"a": "q", "r": {"t": "w"}}], "m": [{"k": "z"}]}),
+      ],
+    ),
+  ]
+}
+
+// ---------------------------------------------------------------------------------------------
+// Mutation operators (schema-agnostic: they only look at the JSON shape)
+
+fn type_alphabet() -> Vec<(&'static str, Value)> {
+  vec![
+    ("null", Value::Null),
+    ("bool", json!(true)),
+    ("int", json!(7)),
+    ("float", json!(1.5)),
+    ("string", json!("s")),
+    ("mixed-array", json!(["s", 7])),
+    ("float-array", json!([1.5])),
+    ("array-of-arrays", json!([["s"]])),
+    ("empty-array-in-array", json!([[]])),
+    ("object", json!({"zz": 1})),
+    ("empty-object", json!({})),
+  ]
+}
+
+fn get_mut<'a>(root: &'a mut Value, path: &[PathSeg]) -> &'a mut Value {
+  let mut cur = root;
+  for p in path {
+    cur = match p {
+      PathSeg::Key(k) => cur.get_mut(k.as_str()).unwrap(),
+      PathSeg::Idx(i) => cur.get_mut(*i).unwrap(),
+    };
+  }
+  cur
+}
+
+#[derive(Clone, Debug)]
+enum PathSeg {
+  Key(String),
+  Idx(usize),
+}
+
+fn path_str(path: &[PathSeg]) -> String {
+  let mut s = String::new();
+  for p in path {
+    match p {
+      PathSeg::Key(k) => {
+        if !s.is_empty() {
+          s.push('.');
+        }
+        s.push_str(k);
+      }
+      PathSeg::Idx(i) => s.push_str(&format!("[{i}]")),
+    }
+  }
+  s
+}
+
+fn value_paths(v: &Value, cur: &mut Vec<PathSeg>, out: &mut Vec<Vec<PathSeg>>) {
+  match v {
+    Value::Object(m) => {
+      for (k, c) in m {
+        cur.push(PathSeg::Key(k.clone()));
+        out.push(cur.clone());
+        value_paths(c, cur, out);
+        cur.pop();
+      }
+    }
+    Value::Array(a) => {
+      for (i, c) in a.iter().enumerate() {
+        cur.push(PathSeg::Idx(i));
+        out.push(cur.clone());
+        value_paths(c, cur, out);
+        cur.pop();
+      }
+    }
+    _ => {}
+  }
+}
+
+/// Every single-step mutant of `doc` with a description of the operator.
+fn mutants(doc: &Value) -> Vec<(String, Value)> {
+  let mut out: Vec<(String, Value)> = Vec::new();
+  let obj = doc.as_object().unwrap();
+  // id operators
+  if obj.contains_key("_id") {
+    let mut d = doc.clone();
+    d.as_object_mut().unwrap().remove("_id");
+    out.push(("drop id".into(), d));
+    for (name, v) in [("blank id", json!("")), ("whitespace id", json!("  ")), ("numeric id", json!(7)), ("null id", Value::Null), ("array id", json!(["A"])), ("object id", json!({"x": 1}))] {
+      let mut d = doc.clone();
+      d["_id"] = v;
+      out.push((name.into(), d));
+    }
+  }
+  // unknown top-level field
+  for (name, v) in [("add unknown top-level field zz:\"q\"", json!("q")), ("add unknown top-level field zz:{..}", json!({"a": 1}))] {
+    if !obj.contains_key("zz") {
+      let mut d = doc.clone();
+      d["zz"] = v;
+      out.push((name.into(), d));
+    }
+  }
+  // per value location
+  let mut paths = Vec::new();
+  value_paths(doc, &mut Vec::new(), &mut paths);
+  for path in paths {
+    if matches!(path.first(), Some(PathSeg::Key(k)) if k == "_id") {
+      continue;
+    }
+    let ps = path_str(&path);
+    let orig = {
+      let mut d = doc.clone();
+      get_mut(&mut d, &path).clone()
+    };
+    for (tn, tv) in type_alphabet() {
+      if tv == orig {
+        continue;
+      }
+      let mut d = doc.clone();
+      *get_mut(&mut d, &path) = tv;
+      out.push((format!("replace {ps} by {tn}"), d));
+    }
+    {
+      let mut d = doc.clone();
+      let slot = get_mut(&mut d, &path);
+      *slot = json!([orig.clone()]);
+      out.push((format!("wrap {ps} in an array"), d));
+    }
+    match &orig {
+      Value::Object(m) => {
+        for k in m.keys() {
+          let mut d = doc.clone();
+          get_mut(&mut d, &path).as_object_mut().unwrap().remove(k);
+          out.push((format!("drop property {k} of {ps}"), d));
+        }
+        if !m.contains_key("zz") {
+          let mut d = doc.clone();
+          get_mut(&mut d, &path).as_object_mut().unwrap().insert("zz".into(), json!("q"));
+          out.push((format!("add unknown property zz to {ps}"), d));
+        }
+      }
+      Value::Array(a) => {
+        for (name, v) in [("string", json!("s")), ("int", json!(7)), ("float", json!(1.5)), ("null", Value::Null), ("empty array", json!([])), ("empty object", json!({}))] {
+          let mut d = doc.clone();
+          get_mut(&mut d, &path).as_array_mut().unwrap().push(v);
+          out.push((format!("append {name} to array {ps}"), d));
+        }
+        if let Some(first) = a.first() {
+          let mut d = doc.clone();
+          get_mut(&mut d, &path).as_array_mut().unwrap().push(json!([first.clone()]));
+          out.push((format!("append [first element] to array {ps}"), d));
+        }
+      }
+      _ => {}
+    }
+  }
+  out
+}
+
+// ---------------------------------------------------------------------------------------------
+// Independent schema-validity predicate (written from README / index-schema.json, not from the
+// validation code). It reports *reasons* a document is plainly invalid; inputs on which the
+// documentation is silent set `unspecified` and demand nothing.
+
+#[derive(Default, Debug)]
+struct Verdict {
+  reasons: BTreeSet<String>,
+  unspecified: bool,
+}
+
+impl Verdict {
+  fn bad(&mut self, tag: &str) {
+    self.reasons.insert(tag.to_string());
+  }
+}
+
+#[derive(Clone, Copy, PartialEq)]
+enum Kind {
+  Str,
+  I64,
+  F64,
+}
+
+fn leaf_kind(def: &Value, class: &str) -> Kind {
+  match class {
+    "numeric" => {
+      if def["i64"].as_bool().unwrap_or(false) {
+        Kind::I64
+      } else {
+        Kind::F64
+      }
+    }
+    _ => Kind::Str,
+  }
+}
+
+fn scalar_ok(kind: Kind, v: &Value) -> Result<(), &'static str> {
+  match (kind, v) {
+    (Kind::Str, Value::String(_)) => Ok(()),
+    (Kind::I64, Value::Number(n)) => {
+      if n.is_i64() {
+        Ok(())
+      } else if n.is_f64() {
+        Err("float-in-i64")
+      } else {
+        Err("unspecified")
+      }
+    }
+    (Kind::F64, Value::Number(_)) => Ok(()),
+    _ => Err("wrong-type"),
+  }
+}
+
+/// `ctx` is "" for top-level fields and "nested-leaf-" for properties of nested objects.
+fn check_leaf(kind: Kind, nullable: bool, v: &Value, ctx: &str, out: &mut Verdict) {
+  match v {
+    Value::Null => {
+      if !nullable {
+        out.bad(&format!("{ctx}null-non-nullable"));
+      }
+    }
+    Value::Array(items) => {
+      for it in items {
+        match it {
+          Value::Null => {
+            if nullable {
+              out.unspecified = true;
+            } else {
+              out.bad(&format!("{ctx}wrong-element-type"));
+            }
+          }
+          Value::Array(_) => out.bad(&format!("{ctx}array-of-arrays")),
+          Value::Object(_) | Value::Bool(_) => out.bad(&format!("{ctx}wrong-element-type")),
+          _ => match scalar_ok(kind, it) {
+            Ok(()) => {}
+            Err("unspecified") => out.unspecified = true,
+            Err("float-in-i64") => out.bad(&format!("{ctx}float-in-i64")),
+            Err(_) => out.bad(&format!("{ctx}wrong-element-type")),
+          },
+        }
+      }
+    }
+    Value::Object(_) | Value::Bool(_) => out.bad(&format!("{ctx}wrong-type")),
+    _ => match scalar_ok(kind, v) {
+      Ok(()) => {}
+      Err("unspecified") => out.unspecified = true,
+      Err("float-in-i64") => out.bad(&format!("{ctx}float-in-i64")),
+      Err(_) => out.bad(&format!("{ctx}wrong-type")),
+    },
+  }
+}
+
+fn check_nested(def: &Value, v: &Value, out: &mut Verdict) {
+  let nullable = def["nullable"].as_bool().unwrap_or(false);
+  match v {
+    Value::Null => {
+      if !nullable {
+        out.bad("nested-null-non-nullable");
+      }
+    }
+    Value::Object(m) => check_nested_object(def, m, out),
+    Value::Array(items) => {
+      for it in items {
+        match it {
+          Value::Object(m) => check_nested_object(def, m, out),
+          Value::Null => {
+            if nullable {
+              out.unspecified = true;
+            } else {
+              out.bad("nested-null-non-nullable");
+            }
+          }
+          Value::Array(_) => out.bad("nested-array-of-arrays"),
+          _ => out.bad("nested-scalar-element"),
+        }
+      }
+    }
+    _ => out.bad("nested-scalar"),
+  }
+}
+
+fn check_nested_object(def: &Value, m: &Map<String, Value>, out: &mut Verdict) {
+  let props = def["fields"].as_array().cloned().unwrap_or_default();
+  for (k, v) in m {
+    match props.iter().find(|p| p["name"] == json!(k)) {
+      None => out.bad("unknown-nested-property"),
+      Some(p) => {
+        let class = p["type"].as_str().unwrap_or("");
+        if class == "object" {
+          check_nested(p, v, out);
+        } else {
+          check_leaf(leaf_kind(p, class), p["nullable"].as_bool().unwrap_or(false), v, "nested-leaf-", out);
+        }
+      }
+    }
+  }
+  for p in &props {
+    let name = p["name"].as_str().unwrap_or("");
+    if !m.contains_key(name) && !p["nullable"].as_bool().unwrap_or(false) {
+      out.bad("missing-required-nested-property");
+    }
+  }
+}
+
+fn judge(schema: &Value, doc: &Value) -> Verdict {
+  let mut out = Verdict::default();
+  let obj = doc.as_object().unwrap();
+  match obj.get("_id") {
+    None => out.bad("id-missing"),
+    Some(Value::String(s)) => {
+      if s.trim().is_empty() {
+        out.bad("id-blank");
+      }
+    }
+    Some(_) => out.bad("id-non-string"),
+  }
+  let find = |list: &str, name: &str| -> Option<Value> { schema[list].as_array().and_then(|a| a.iter().find(|f| f["name"] == json!(name)).cloned()) };
+  for (k, v) in obj {
+    if k == "_id" {
+      continue;
+    }
+    if let Some(f) = find("text_fields", k).or_else(|| find("keyword_fields", k)) {
+      check_leaf(Kind::Str, f["nullable"].as_bool().unwrap_or(false), v, "", &mut out);
+    } else if let Some(f) = find("numeric_fields", k) {
+      check_leaf(leaf_kind(&f, "numeric"), f["nullable"].as_bool().unwrap_or(false), v, "", &mut out);
+    } else if let Some(n) = find("nested_fields", k) {
+      check_nested(&n, v, &mut out);
+    } else if k.contains('.') {
+      out.unspecified = true;
+    } else {
+      out.bad("unknown-top-level-field");
+    }
+  }
+  out
+}
+
+// ---------------------------------------------------------------------------------------------
+// Running one case against the real code
+
+#[derive(Debug, Clone, PartialEq)]
+enum Outcome {
+  Rejected(String),
+  Committed,
+  CommitFailed { err: String, blocked: Option<String> },
+  Broken(String),
+}
+
+fn valid_followup() -> Value {
+  json!({"_id": "V"})
+}
+
+fn run_doc(schema_json: &Value, d: &Value) -> Outcome {
+  let sch = schema(schema_json.clone());
+  let idx = mem_index(&sch);
+  let document = doc(d);
+  let mut w = match idx.writer() {
+    Ok(w) => w,
+    Err(e) => return Outcome::Broken(format!("writer(): {e:#}")),
+  };
+  let added = match vcore::catch(|| w.add_document(&document)) {
+    Err(p) => return Outcome::Broken(format!("add_document panicked: {p}")),
+    Ok(r) => r,
+  };
+  match added {
+    Err(e) => {
+      // a rejected document must leave the handle usable and must not be committed
+      let follow = vcore::catch(|| -> anyhow::Result<BTreeMap<String, Value>> {
+        w.add_document(&doc(&valid_followup()))?;
+        w.commit()?;
+        contents(&idx)
+      });
+      match follow {
+        Err(p) => Outcome::Broken(format!("after the rejected add, add+commit of a valid document panicked: {p}")),
+        Ok(Err(e2)) => Outcome::Broken(format!("after the rejected add ({e:#}), the same writer cannot commit a valid document: {e2:#}")),
+        Ok(Ok(c)) => {
+          let ids: Vec<&String> = c.keys().collect();
+          if ids != vec!["V"] {
+            Outcome::Broken(format!("after the rejected add, committed ids are {ids:?}, expected [\"V\"]"))
+          } else {
+            Outcome::Rejected(format!("{e:#}"))
+          }
+        }
+      }
+    }
+    Ok(_) => {
+      let committed = match vcore::catch(|| w.commit()) {
+        Err(p) => return Outcome::Broken(format!("commit panicked: {p}")),
+        Ok(r) => r,
+      };
+      match committed {
+        Ok(()) => match vcore::catch(|| contents(&idx)) {
+          Err(p) => Outcome::Broken(format!("match_all after the commit panicked: {p}")),
+          Ok(Err(e)) => Outcome::Broken(format!("match_all after the commit failed: {e:#}")),
+          Ok(Ok(c)) => {
+            let want = d["_id"].as_str().unwrap_or("");
+            if c.contains_key(want) {
+              Outcome::Committed
+            } else {
+              Outcome::Broken(format!("commit returned Ok but id {want:?} is not in the committed contents {:?}", c.keys().collect::<Vec<_>>()))
+            }
+          }
+        },
+        Err(e) => {
+          drop(w);
+          let later = vcore::catch(|| -> anyhow::Result<()> {
+            let mut w2 = idx.writer()?;
+            w2.add_document(&doc(&valid_followup()))?;
+            w2.commit()
+          });
+          let blocked = match later {
+            Ok(Ok(())) => None,
+            Ok(Err(e2)) => Some(format!("{e2:#}")),
+            Err(p) => Some(format!("PANIC {p}")),
+          };
+          Outcome::CommitFailed { err: format!("{e:#}"), blocked }
+        }
+      }
+    }
+  }
+}
+
+const LAX_COMMIT: [&str; 2] = ["unknown-top-level-field", "nested-array-of-arrays"];
+const LAX_SILENT: [&str; 3] = ["nested-leaf-wrong-element-type", "nested-leaf-array-of-arrays", "nested-leaf-float-in-i64"];
+
+/// Returns (signature, what) if the case violates the property.
+fn evaluate(is_base: bool, oversize: bool, verdict: &Verdict, outcome: &Outcome) -> Option<(Option<&'static str>, String)> {
+  let all_lax = !verdict.reasons.is_empty() && verdict.reasons.iter().all(|r| LAX_COMMIT.contains(&r.as_str()) || LAX_SILENT.contains(&r.as_str()));
+  match outcome {
+    Outcome::Broken(m) => Some((None, m.clone())),
+    Outcome::Rejected(e) => {
+      if is_base {
+        Some((None, format!("a plainly valid base document was rejected by add_document: {e}")))
+      } else {
+        None
+      }
+    }
+    Outcome::Committed => {
+      if verdict.reasons.is_empty() {
+        return None;
+      }
+      let what = format!("add_document accepted (and commit stored) a document that violates the schema: {:?}", verdict.reasons);
+      let sig = if verdict.reasons.iter().all(|r| LAX_SILENT.contains(&r.as_str())) {
+        if verdict.reasons.iter().any(|r| r != "nested-leaf-float-in-i64") {
+          Some("C15-nested-leaf-array-elements-unchecked")
+        } else {
+          Some("C15-nested-i64-float-accepted")
+        }
+      } else {
+        None
+      };
+      Some((sig, what))
+    }
+    Outcome::CommitFailed { err, blocked } => {
+      let tail = match blocked {
+        Some(b) => format!("; a fresh writer handle then fails to commit a valid document too: {b}"),
+        None => "; a fresh writer handle can still commit".to_string(),
+      };
+      let what = format!("add_document returned Ok but the following commit failed: {err}{tail} (schema violations per the independent predicate: {:?})", verdict.reasons);
+      let sig = if oversize && verdict.reasons.is_empty() && err.contains("stored document too large") {
+        Some("C15-oversized-stored-document-accepted")
+      } else if all_lax && verdict.reasons.contains("unknown-top-level-field") && err.contains("unknown field") {
+        Some("C15-unknown-top-level-field-accepted")
+      } else if all_lax && verdict.reasons.contains("nested-array-of-arrays") && err.contains("must contain objects") {
+        Some("C15-nested-array-of-arrays-accepted")
+      } else {
+        None
+      };
+      Some((sig, what))
+    }
+  }
+}
+
+fn oversize_doc(bytes: usize) -> Value {
+  json!({"_id": "A", "blob": "a".repeat(bytes)})
+}
+
+/// Stored-only text field, so that the oversized value is not tokenized (keeps the case cheap).
+fn schema_blob() -> Value {
+  json!({"doc_id_field": "_id",
+    "text_fields": [{"name": "blob", "analyzer": "default", "stored": true, "indexed": false}],
+    "keyword_fields": [], "numeric_fields": []})
+}
+
+fn outcome_class(o: &Outcome) -> &'static str {
+  match o {
+    Outcome::Rejected(_) => "rejected",
+    Outcome::Committed => "committed",
+    Outcome::CommitFailed { .. } => "commit-failed",
+    Outcome::Broken(_) => "broken",
+  }
+}
+
+pub fn run(ctx: &Ctx) -> i32 {
+  let mut rep = Reporter::new("C15", ctx.tier, "exploration");
+  let quick = ctx.tier.is_quick();
+  if let Some(path) = &ctx.replay {
+    rep.set_replaying(true);
+    let v: Value = serde_json::from_slice(&std::fs::read(path).expect("replay file")).expect("json");
+    let cs = &v["case"];
+    let schema_json = cs["schema_json"].clone();
+    let oversize = cs["oversize_bytes"].as_u64();
+    let d = match oversize {
+      Some(n) => oversize_doc(n as usize),
+      None => cs["doc"].clone(),
+    };
+    let is_base = cs["mutations"].as_array().map(|a| a.is_empty()).unwrap_or(false) && oversize.is_none();
+    let verdict = judge(&schema_json, &d);
+    let once = || evaluate(is_base, oversize.is_some(), &verdict, &run_doc(&schema_json, &d)).map(|e| e.1);
+    let (a, b) = (once(), once());
+    if a.is_some() != b.is_some() {
+      vcore::ev::machinery_failure("NONDETERMINISM on replay");
+    }
+    return match a {
+      Some(w) => {
+        println!("VIOLATION property=C15 replay={path}\n  what: {w}");
+        1
+      }
+      None => {
+        println!("replay: no violation");
+        0
+      }
+    };
+  }
+
+  struct Case {
+    schema_name: &'static str,
+    schema_json: std::sync::Arc<Value>,
+    doc: Value,
+    base: std::sync::Arc<Value>,
+    mutations: Vec<String>,
+  }
+  let mut cases: Vec<Case> = Vec::new();
+  let mut per_depth = [0u64; 3];
+  for (sname, sjson, bases) in universes() {
+    let sjson = std::sync::Arc::new(sjson);
+    let bases: Vec<std::sync::Arc<Value>> = bases.into_iter().map(std::sync::Arc::new).collect();
+    let mut seen: HashSet<String> = HashSet::new();
+    let mut singles: Vec<(usize, String, Value)> = Vec::new();
+    for b in &bases {
+      if seen.insert(b.to_string()) {
+        cases.push(Case { schema_name: sname, schema_json: sjson.clone(), doc: (**b).clone(), base: b.clone(), mutations: vec![] });
+        per_depth[0] += 1;
+      }
+    }
+    for (bi, b) in bases.iter().enumerate() {
+      for (m, d) in mutants(b) {
+        if seen.insert(d.to_string()) {
+          cases.push(Case { schema_name: sname, schema_json: sjson.clone(), doc: d.clone(), base: b.clone(), mutations: vec![m.clone()] });
+          per_depth[1] += 1;
+          singles.push((bi, m, d));
+        }
+      }
+    }
+    // quick: second-order mutants of the two simplest base documents only
+    let second: Vec<Vec<(String, String, Value)>> = singles
+      .par_iter()
+      .map(|(bi, _, d1)| if quick && *bi >= 2 { Vec::new() } else { mutants(d1).into_iter().map(|(m2, d2)| (d2.to_string(), m2, d2)).collect() })
+      .collect();
+    for ((bi, m1, _), list) in singles.iter().zip(second) {
+      for (key, m2, d2) in list {
+        if seen.insert(key) {
+          cases.push(Case { schema_name: sname, schema_json: sjson.clone(), doc: d2, base: bases[*bi].clone(), mutations: vec![m1.clone(), m2] });
+          per_depth[2] += 1;
+        }
+      }
+    }
+  }
+  // simplest first: by number of mutations, then by serialized size
+  cases.sort_by_cached_key(|c| (c.mutations.len(), c.doc.to_string().len()));
+
+  let t_gen = rep.elapsed_s();
+  let evals = AtomicU64::new(0);
+  let invalid_cases = AtomicU64::new(0);
+  let unspecified_cases = AtomicU64::new(0);
+  let outcomes: Mutex<BTreeMap<String, u64>> = Mutex::new(BTreeMap::new());
+  let reason_stats: Mutex<BTreeMap<String, (u64, u64)>> = Mutex::new(BTreeMap::new());
+  let deadline = if quick { 30.0 } else { 840.0 };
+  let timed_out = AtomicBool::new(false);
+  // keep the report order simplest-first: evaluate in parallel, report sequentially
+  let results: Vec<Option<(Option<&'static str>, String)>> = cases
+    .par_iter()
+    .map(|c| {
+      if rep.elapsed_s() > deadline {
+        timed_out.store(true, Ordering::Relaxed);
+        return None;
+      }
+      let verdict = judge(&c.schema_json, &c.doc);
+      let outcome = run_doc(&c.schema_json, &c.doc);
+      evals.fetch_add(1, Ordering::Relaxed);
+      if !verdict.reasons.is_empty() {
+        invalid_cases.fetch_add(1, Ordering::Relaxed);
+      } else if verdict.unspecified {
+        unspecified_cases.fetch_add(1, Ordering::Relaxed);
+      }
+      *outcomes.lock().entry(outcome_class(&outcome).to_string()).or_insert(0) += 1;
+      if verdict.reasons.len() == 1 {
+        let mut rs = reason_stats.lock();
+        let e = rs.entry(verdict.reasons.iter().next().unwrap().clone()).or_insert((0, 0));
+        e.0 += 1;
+        if matches!(outcome, Outcome::Rejected(_)) {
+          e.1 += 1;
+        }
+      }
+      if c.mutations.len() == 1 && !rep.sample_full() {
+        rep.sample(json!({"schema": c.schema_name, "base": *c.base, "mutations": c.mutations, "doc": c.doc, "predicate_reasons": verdict.reasons, "outcome": outcome_class(&outcome)}));
+      }
+      evaluate(c.mutations.is_empty(), false, &verdict, &outcome)
+    })
+    .collect();
+  // report the simplest witness of every failure class first, then the rest (simplest first)
+  let mut failure_classes: BTreeMap<String, u64> = BTreeMap::new();
+  let mut firsts = Vec::new();
+  let mut rest = Vec::new();
+  for (c, r) in cases.iter().zip(results) {
+    if let Some((sig, what)) = r {
+      let class = sig.map(|s| s.to_string()).unwrap_or_else(|| format!("unexplained: {}", what.chars().take(60).collect::<String>()));
+      let n = failure_classes.entry(class).or_insert(0);
+      *n += 1;
+      if *n == 1 {
+        firsts.push((c, sig, what));
+      } else {
+        rest.push((c, sig, what));
+      }
+    }
+  }
+  for (c, sig, what) in firsts.into_iter().chain(rest) {
+    rep.fail(
+      sig,
+      &format!("schema {} doc {} ({}): {}", c.schema_name, c.doc, if c.mutations.is_empty() { "base document".to_string() } else { format!("base {} + {}", c.base, c.mutations.join(" + ")) }, what),
+      json!({"engine": "inputmc-docs", "schema_name": c.schema_name, "schema_json": *c.schema_json, "doc": c.doc, "base": *c.base, "mutations": c.mutations}),
+    );
+  }
+  let t_enum = rep.elapsed_s();
+  // one oversized stored value (> 32 MiB docstore cap), flat schema
+  let oversize_bytes = 33usize << 20;
+  if !quick {
+    let sjson = schema_blob();
+    let d = oversize_doc(oversize_bytes);
+    let verdict = judge(&sjson, &d);
+    let outcome = run_doc(&sjson, &d);
+    evals.fetch_add(1, Ordering::Relaxed);
+    *outcomes.lock().entry(outcome_class(&outcome).to_string()).or_insert(0) += 1;
+    if let Some((sig, what)) = evaluate(false, true, &verdict, &outcome) {
+      *failure_classes.entry(sig.map(|s| s.to_string()).unwrap_or_else(|| "unexplained: oversized stored value".into())).or_insert(0) += 1;
+      rep.fail(
+        sig,
+        &format!("schema with one stored, unindexed text field blob; doc {{\"_id\":\"A\",\"blob\":\"a\" x {oversize_bytes}}}: {what}"),
+        json!({"engine": "inputmc-docs", "schema_name": "blob", "schema_json": sjson, "oversize_bytes": oversize_bytes, "mutations": []}),
+      );
+    }
+  }
+  rep.add_evals(evals.load(Ordering::Relaxed));
+  let to = timed_out.load(Ordering::Relaxed);
+  let oc = outcomes.lock().clone();
+  if oc.len() < 2 {
+    vcore::ev::machinery_failure("C15: fewer than 2 distinct outcomes observed (vacuous)");
+  }
+  let rs: BTreeMap<String, Value> = reason_stats.lock().iter().map(|(k, (n, r))| (k.clone(), json!({"cases": n, "rejected_at_add": r}))).collect();
+  let cov = vcore::cov! {
+    "distinct_nontrivial" => invalid_cases.load(Ordering::Relaxed),
+    "rule" => "cases = per schema, every base document + every distinct result of one mutation operator + every distinct result of two (quick: second-order mutants of the two simplest base documents per schema only); operators act on the JSON shape: drop/blank/whitespace/non-string id, add unknown top-level field, for every value location replace by each of 11 typed values (null, bool, int, float, string, mixed array, float array, array of arrays, [[]], object, {}), wrap in an array, drop each property, add unknown property, append string/int/float/null/[]/{}/[first] to each array; plus (thorough only: it costs ~20 s) one document with a 33 MiB stored value. A case is non-trivial when the independent predicate finds at least one schema violation in it.",
+    "schemas" => universes().iter().map(|u| u.0).collect::<Vec<_>>(),
+    "base_documents" => per_depth[0],
+    "single_mutants" => per_depth[1],
+    "double_mutants" => per_depth[2],
+    "cases_with_unspecified_validity" => unspecified_cases.load(Ordering::Relaxed),
+    "outcome_counts" => oc,
+    "single_reason_cases" => rs,
+    "failure_classes" => failure_classes,
+    "distinct_observed_outcomes" => oc.len(),
+    "generation_wall_s" => t_gen,
+    "enumeration_wall_s" => t_enum,
+    "cap_hit" => if to { Some(format!("wall budget {deadline}s")) } else { None },
+    "exhaustive" => !to,
+  };
+  rep.finish(
+    cov,
+    vec![
+      "integers in an f64 field, empty arrays, single-element arrays and dotted top-level names (\"c.a\") are not judged invalid: the documentation does not say".into(),
+      "null elements inside arrays of a nullable field / nullable nested field are unspecified and demand nothing".into(),
+      "nullable nested properties may be absent (the code and index-schema.json treat nullable as optional); non-nullable ones are required".into(),
+      "top-level schema fields are optional in a document (README examples omit fields)".into(),
+    ],
+  )
 }
